@@ -326,4 +326,22 @@ theorem runOps_full : ∀ (ops : List SetOp) {s s' : IntSet} {A : ASet} {os : Li
         obtain ⟨r1, r2, r3⟩ := ih (stepOp_represents h h1).1 c1 h2
         exact ⟨r1, r2, l1, r3⟩
 
+/-- the final set of a history from the empty set satisfies the full invariant -/
+theorem inv_of_history {ops : List SetOp} {s : IntSet} {os : List Obs} (h : empty.runOps ops = some (s, os)) : Inv s := by
+  obtain ⟨r, c, _⟩ := runOps_full ops empty_represents empty_counts h
+  exact ⟨r.1, c⟩
+
+/-- the set a history builds, for examples (`empty` if the run were undefined) -/
+def built (ops : List SetOp) : IntSet := ((empty.runOps ops).map (·.1)).getD empty
+
+theorem built_inv (ops : List SetOp) : Inv (built ops) := by
+  unfold built
+  cases h : empty.runOps ops with
+  | none => exact empty_inv
+  | some r => exact inv_of_history (s := r.1) (os := r.2) h
+
+/-- two concrete sets with history (a resize, a dummy, a pop; a dict presize, a key ≥ 2⁶¹, a negative key) -/
+def exampleA : IntSet := built [.updateIter [1, 9, 17, 25, 33, 2], .discard 9, .pop]
+def exampleB : IntSet := built [.updateDict [33, -4, 2 ^ 61, 7], .add 40]
+
 end ChythonModel.Py.IntSet
